@@ -182,13 +182,16 @@ LoopPairs(NU, NV) ==           \* for j in range(NU): for i in range(NV)        
 LastWriter(pairs, x, InSlice(_, _)) ==
   LET W == {m \in DOMAIN pairs : InSlice(pairs[m], x)} IN IF W = {} THEN 0 ELSE MaxSet(W)
 
-SerialAssembleImpl(F, Bu, Bv, env) ==
+\* mut = "none" is the code; the other values are seeded deviations of the transcription, used only to show
+\* that the clauses reject them on the model universe (MC_C01 with MC_MUT set)
+SerialAssembleImplM(F, Bu, Bv, env, mut) ==
   LET nt  == Bu.nel                                        \* :71
       NU  == Bu.nb   NV == Bv.nb
       sz  == NU * NV * nt                                  \* :79
       n   == NormT(F, Bu.sphi, Bv.sphi, env).t
       pairs == LoopPairs(NU, NV)
-      start(p) == nt * (NV * p.j + p.i)                    \* :88-89  ixs = slice(nt*(NV*j+i), nt*(NV*j+i+1))
+      start(p) == IF mut = "stride" THEN nt * (NU * p.j + p.i)
+                  ELSE nt * (NV * p.j + p.i)               \* :88-89  ixs = slice(nt*(NV*j+i), nt*(NV*j+i+1))
       inslice(p, x) == x >= start(p) /\ x < start(p) + nt
       zeros == [x \in 0..(sz - 1) |-> 0]                   \* :81-82
       rows == [x \in 0..(sz - 1) |->                       \* :90  rows[ixs] = vbasis.element_dofs[i]
@@ -201,9 +204,13 @@ SerialAssembleImpl(F, Bu, Bv, env) ==
       data3 == [j \in 0..(NU - 1) |-> [i \in 0..(NV - 1) |-> [k \in 0..(nt - 1) |->
                   Kernel(n, Bu.phi[j + 1], Bv.phi[i + 1], env, Bu.dx, Bu.nq, k + 1)]]]
       \* :122 data.flatten('C') of an array of shape (NU, NV, nt)
-      data == [x \in 0..(sz - 1) |-> data3[x \div (NV * nt)][(x \div nt) % NV][x % nt]]
-  IN [rows |-> rows, cols |-> cols, data |-> data, n |-> sz,
-      shape |-> <<Bv.N, Bu.N>>, lshape |-> <<NV, NU>>]      \* :124-129
+      data == [x \in 0..(sz - 1) |->
+                 IF mut = "flatF" THEN data3[x % NU][(x \div NU) % NV][x \div (NU * NV)]
+                 ELSE data3[x \div (NV * nt)][(x \div nt) % NV][x % nt]]
+  IN [rows |-> IF mut = "swap" THEN cols ELSE rows, cols |-> IF mut = "swap" THEN rows ELSE cols,
+      data |-> data, n |-> sz,
+      shape |-> IF mut = "swap" THEN <<Bu.N, Bv.N>> ELSE <<Bv.N, Bu.N>>, lshape |-> <<NV, NU>>]      \* :124-129
+SerialAssembleImpl(F, Bu, Bv, env) == SerialAssembleImplM(F, Bu, Bv, env, "none")
 
 \* COOData._assemble_scipy_csr (coo_data.py:28-36): coo_matrix(...); eliminate_zeros(); tocsr() sums duplicates
 ToCSRImpl(coo) ==
